@@ -4,6 +4,27 @@ import json, subprocess
 
 # id -> (technique, level text, level note, design ref)
 CHECKS = {
+ "C06": ("stateful proptest session histories; metamorphic oracle (history with failing inputs vs the same history without them) + digest invariant after every step",
+         "Generated sessions of typed definitions, redefinitions, units, dimensions, structs, imports, expressions and prints interleaved with failing inputs of 13 kinds (every stage), each possibly preceded by successful statements and imports in the same input; after every input the complete definition digests of the two sessions must agree, later inputs must behave identically, names and modules touched by failed inputs are probed at the end.",
+         "The session digest (function signatures, unit definitions, dimensions, raw variable values) is what 'the same session' means; source labels are not compared.",
+         "DESIGN.md §4 C06"),
+ "C07": ("stateful proptest histories with random partitions and clone points; differential oracle line-by-line vs chunked vs joined vs saved-and-replayed, and clone vs never-cloned sessions",
+         "Histories of successful inputs (including redefinitions, function values, ans/_) are run line by line, in random chunks, as one input, and through CommandRunner `save` + replay; prints, per-input results and definition digests must agree, the saved file must hold exactly the trimmed successful inputs, and a cloned session continued differently must equal a never-cloned one.",
+         "Digest as in C06; scratch history files live under /verif/target/scratch.",
+         "DESIGN.md §4 C07"),
+ "C08": ("proptest input generation (token soup, corpus mutation, extreme-value templates, corrupted programs, nesting, bytes) + libFuzzer target; oracle = no panic, diagnostics render, session stays usable, bounded time",
+         "24 000 inputs per quick run (1.6 M thorough) in fresh / prelude / prelude+definitions sessions with debug assertions and overflow checks on; every error's diagnostics are rendered through codespan; panics are keyed by file + message and compared with the recorded findings.",
+         "In-process: native stack overflow (nesting beyond the generator's bound) and memory exhaustion cannot be observed and end the run with exit 2; a VM step budget (hook) stops unbounded recursion and is reported as inconclusive.",
+         "DESIGN.md §4 C08"),
+ "C10": ("proptest token sequences (grammar-directed trees with minimal parentheses, token mutations, soup) differential against a reference recursive-descent parser written from the documented EBNF and precedence table",
+         "About a million token sequences per quick run over all documented operator spellings and literal forms; numbat's syntax tree (hook, S-expression) must equal the reference parser's tree, and inputs the reference rejects must be rejected; the book's examples are fixed seeds with hand-written trees.",
+         "The reference parser encodes the EBNF plus three observed conventions stated in the evidence assumptions; tokenizer-level invalid literals are not generated.",
+         "DESIGN.md §4 C10"),
+ "C22": ("proptest programs run through the real CLI binary three ways; differential oracle against the library in process and between FILE and -e",
+         "Generated programs (succeeding, or failing at any stage and position) are executed with the numbat binary built from the working tree as FILE, as -e arguments and with --pretty-print always in a sealed environment; exit status, stdout and stderr are checked against the library's outcome and against each other.",
+         "The CLI is a debug build made by run.sh from /repo; only non-interactive invocations are covered.",
+         "DESIGN.md §4 C22"),
+
  "C03": ("exhaustive leaf sweep over all unit spellings + proptest expression trees; differential oracle against exact dimensional arithmetic (RefDim) over the direct unit definitions",
          "Every single-identifier spelling of every prelude unit (alias x accepted prefix, long and short) is evaluated on every run, and depth-bounded random expression trees (* / ^ + - unary minus, dyadic rational exponents, respelled same-dimension operands) are compared in base units with an independent evaluation: exponent vectors exactly, magnitudes to 1e-9.",
          "The direct unit definitions exported by the hook are the specification (a wrong constant in a .nbt file is out of reach); RefDim's recursion, prefix table and extended-exponent arithmetic are trusted.",
